@@ -263,6 +263,19 @@ func (c *Client) Wait() error {
 	return c.group.Wait()
 }
 
+// ErrTerminated is returned by API calls which cannot be completed because the
+// client has terminated (e.g. the gateway has disconnected it) without an error.
+var ErrTerminated = errors.New("client terminated")
+
+// waitTerminated is used by API calls which were interrupted by the client's
+// termination: such a call has not been completed, hence it never returns nil.
+func (c *Client) waitTerminated() error {
+	if err := c.group.Wait(); err != nil {
+		return err
+	}
+	return ErrTerminated
+}
+
 // Close closes the connection with the MQTT-SN gateway. The client sends
 // a DISCONNECT packet before closing the connection.
 func (c *Client) Close() error {
@@ -349,7 +362,7 @@ func (c *Client) Connect() error {
 				return err
 			}
 		case <-c.groupCtx.Done():
-			return c.group.Wait()
+			return c.waitTerminated()
 		}
 	}
 
@@ -371,7 +384,7 @@ func (c *Client) Register(topic string) error {
 	case <-transaction.Done():
 		return transaction.Err()
 	case <-c.groupCtx.Done():
-		return c.group.Wait()
+		return c.waitTerminated()
 	}
 }
 
@@ -389,7 +402,7 @@ func (c *Client) subscribe(topicName string, topicIDType uint8, topicID uint16, 
 	case <-transaction.Done():
 		return transaction.Err()
 	case <-c.groupCtx.Done():
-		return c.group.Wait()
+		return c.waitTerminated()
 	}
 }
 
@@ -424,7 +437,7 @@ func (c *Client) unsubscribe(topicName string, topicIDType uint8, topicID uint16
 	case <-transaction.Done():
 		return transaction.Err()
 	case <-c.groupCtx.Done():
-		return c.group.Wait()
+		return c.waitTerminated()
 	}
 }
 
@@ -473,7 +486,7 @@ func (c *Client) publish(topicIDType uint8, topicID uint16, qos uint8, retain bo
 	case <-transaction.Done():
 		return transaction.Err()
 	case <-c.groupCtx.Done():
-		return c.group.Wait()
+		return c.waitTerminated()
 	}
 }
 
@@ -525,7 +538,7 @@ func (c *Client) ping(keepalive bool) error {
 			// wait for the group (i.e. for itself) to finish.
 			return nil
 		}
-		return c.group.Wait()
+		return c.waitTerminated()
 	}
 }
 
@@ -540,7 +553,7 @@ func (c *Client) Sleep(duration time.Duration) error {
 	case <-transaction.Done():
 		return transaction.Err()
 	case <-c.groupCtx.Done():
-		return c.group.Wait()
+		return c.waitTerminated()
 	}
 }
 
